@@ -578,8 +578,22 @@ def range_discharge(sink, taint, op_types):
         name = next((n for n in ALLOC_SIZE_ARG if kind == "call:alloc_" + lastseg(n) and len(sink.ops) > ALLOC_SIZE_ARG[n]), None)
         if name is None:
             return False
-        m = maxval(sink.ops[ALLOC_SIZE_ARG[name]], bounds)
-        return m is not None and m <= ALLOC_LIMIT
+        size = sink.ops[ALLOC_SIZE_ARG[name]]
+        m = maxval(size, bounds)
+        if m is not None and m <= ALLOC_LIMIT:
+            return True
+        # the same amount was obtained by a fallible reservation on the same (fresh) vector and the failure branch left
+        if ALLOC_SIZE_ARG[name] == 1:
+            body = sink.body
+            o = taint.origin(body)
+            recv = sink.ops[0]
+
+            def is_try(e):
+                return e[0] == "call" and lastseg(e[1]) in ("try_reserve_exact", "try_reserve") and len(e[2]) == 2 and _same(e[2][1], size) and _same(e[2][0], recv)
+            dnf = conditions(body, sink.block, origin=o, relevant=lambda at: at[0] == "discr" and any(is_try(x) for x in walk(at[1])))
+            if dnf and all(any(v == 0 for (at, v) in c) for c in dnf):
+                return True
+        return False
     if kind in ("Overflow:Shl", "Overflow:Shr"):
         b = maxval(sink.ops[1], bounds)
         bits = {"u8": 8, "i8": 8, "u16": 16, "i16": 16, "u32": 32, "i32": 32, "u128": 128, "i128": 128}.get(op_types[0] or "usize", 64)
